@@ -4,7 +4,8 @@
 From Coq Require Import ZArith Reals List Bool.
 From Rubato.Model Require Import Num Reals Base Validate Async Resamplers.
 From Rubato.Gen Require Import FastGen SincGen.
-From Rubato.Proofs Require Import MalformedP FastInR FastOutR FastCtorR GettersR SincInR SincOutR FftInOutP FftInR FftOutR.
+From Rubato.Proofs Require Import MalformedP FastInR FastOutR FastCtorR GettersR SincInR SincOutR FftInOutP FftInR FftOutR GettersFftR CtlFftP F32Quot CtlFftB.
+From Rubato.Model Require Floats.
 From Rubato.Model Require Import Fft.
 From Rubato.Gen Require Import SynchroGen.
 Local Open Scope R_scope.
@@ -97,6 +98,60 @@ Theorem C04_fast_out_next_le_max_R : forall blen (s : @astate CR SR (@FastFixedO
   (@fo_input_frames_next CR st <= @fo_input_frames_max CR st)%Z.
 Proof. exact fo_next_le_max_R. Qed.
 
+(** the synchronous resamplers: next <= max at every state satisfying the call invariant (established by the constructors,
+    kept by every call, see the C03_fft theorems); FftFixedInOut and the remaining sides are equalities by definition of the getters *)
+Theorem C04_fft_out_next_le_max_R : forall unit_fn (s : @fstate CR SR FftFixedOut),
+  xo_wf unit_fn s -> (xo_input_frames_next (fs_ctl s) <= @xo_input_frames_max CR (fs_ctl s))%Z.
+Proof. exact xo_next_le_max_R. Qed.
+Theorem C04_fft_in_next_le_max_R : forall unit_fn (s : @fstate CR SR FftFixedIn),
+  xi_wf unit_fn s -> (@xi_output_frames_next CR (fs_ctl s) <= xi_output_frames_max (fs_ctl s))%Z /\
+                     xi_input_frames_next (fs_ctl s) = xi_input_frames_max (fs_ctl s).
+Proof. exact xi_next_le_max_R. Qed.
+Theorem C04_fft_inout_next_eq_max : forall (st : FftFixedInOut), xio_input_frames_next st = xio_input_frames_max st.
+Proof. exact xio_next_eq_max. Qed.
+
+(** The synchronous resamplers in the BIT-EXACT arithmetic (Flocq binary32 quotients, any sample type, any spectral core):
+    for sizes below 2^24 frames the new control record and the counts returned by every successful call are the values of
+    the ideal-arithmetic control functions [xo_ctl_next] / [xi_ctl_next] -- the ones the theorems above characterise --
+    because (a as f32 / b as f32).ceil() and .floor() are exact for integers below 2^24 (ceil32_quot_B, floor32_quot_B). *)
+Theorem C04_f32_quotients_exact : forall a b, (0 <= a < 2 ^ 24)%Z -> (1 <= b < 2 ^ 24)%Z ->
+  @c32_to_usize Floats.CB (@ceil32 Floats.CB (@div32 Floats.CB (@c32_of_Z Floats.CB a) (@c32_of_Z Floats.CB b))) = Flocq.Core.Raux.Zceil (IZR a / IZR b) /\
+  @c32_to_usize Floats.CB (@floor32 Floats.CB (@div32 Floats.CB (@c32_of_Z Floats.CB a) (@c32_of_Z Floats.CB b))) = (a / b)%Z.
+Proof. intros a b Ha Hb. split; [exact (ceil32_quot_B a b Ha Hb) | exact (floor32_quot_B a b Ha Hb)]. Qed.
+
+Theorem C04_fft_out_counts_binary : forall (S : SNum Floats.CB) unit_fn (s s' : @fstate Floats.CB S FftFixedOut) wi wo m c o,
+  (0 <= FftFixedOut_chunk_size_out (fs_ctl s) < 2 ^ 24)%Z -> (1 <= FftFixedOut_fft_size_out (fs_ctl s) < 2 ^ 24)%Z ->
+  (1 <= FftFixedOut_fft_size_in (fs_ctl s))%Z -> (0 <= FftFixedOut_saved_frames (fs_ctl s))%Z -> (0 <= FftFixedOut_frames_needed (fs_ctl s))%Z ->
+  xo_pib unit_fn s wi wo m = Ok (s', c, o) -> (fs_ctl s', c) = @xo_ctl_next CR (fs_ctl s).
+Proof.
+  intros S u s s' wi wo m c o H1 H2 H3 H4 H5 E. rewrite <- (xo_ctl_next_B (fs_ctl s) H1 H2 H3 H4 H5). exact (xo_pib_ctl u _ _ _ _ _ _ _ E).
+Qed.
+
+Theorem C04_fft_in_counts_binary : forall (S : SNum Floats.CB) unit_fn (s s' : @fstate Floats.CB S FftFixedIn) wi wo m c o,
+  (0 <= FftFixedIn_saved_frames (fs_ctl s) + FftFixedIn_chunk_size_in (fs_ctl s) < 2 ^ 24)%Z ->
+  (1 <= FftFixedIn_fft_size_in (fs_ctl s) < 2 ^ 24)%Z ->
+  xi_pib unit_fn s wi wo m = Ok (s', c, o) -> (fs_ctl s', c) = @xi_ctl_next CR (fs_ctl s).
+Proof.
+  intros S u s s' wi wo m c o H1 H2 E. rewrite <- (proj1 (xi_ctl_next_B (fs_ctl s) H1 H2)). exact (xi_pib_ctl u _ _ _ _ _ _ _ E).
+Qed.
+
+(** SincFixedOut: [so_li_ok] (the carried position never exceeds its initial value -(sinc_len/2)) holds at construction, after
+    every call and through set_chunk_size; with it the request never exceeds input_frames_max() at any accepted ratio *)
+Theorem C04_sinc_out_next_le_max_R : forall env blen (s : @astate CR SR (@SincFixedOut CR)),
+  so_wf env blen s -> so_li_ok s -> let st := as_ctl s in
+  0 < SincFixedOut_resample_ratio_original st -> 0 < SincFixedOut_max_relative_ratio st ->
+  SincFixedOut_resample_ratio_original st / SincFixedOut_max_relative_ratio st <= SincFixedOut_resample_ratio st ->
+  (@so_input_frames_next CR st <= @so_input_frames_max CR st)%Z.
+Proof. exact so_next_le_max_R. Qed.
+Theorem C04_sinc_out_li_ok : 
+  (forall ratio maxrel env ilen inbr chunk nch s,
+     @sinc_out_new CR SR ratio maxrel env ilen inbr chunk nch = inr (RSincOut env s) -> so_li_ok s) /\
+  (forall env blen (s s' : @astate CR SR (@SincFixedOut CR)) wi wo m outs,
+     so_wf env blen s -> a_precheck (@so_arch CR SR env) s wi wo m = Ok tt ->
+     pib (@so_arch CR SR env) s wi wo m = Ok (s', (uneeded s, uC s), outs) -> so_li_ok s') /\
+  (forall (s : @astate CR SR (@SincFixedOut CR)) n, so_li_ok s -> so_li_ok (so_set_chunk s n)).
+Proof. split; [exact so_li_ok_ctor | split; [exact so_li_ok_after_call | exact so_li_ok_set_chunk]]. Qed.
+
 (** SincFixedOut at constant ratio (any set_chunk_size schedule): a valid call consumes exactly
     input_frames_next() = needed_input_size frames and writes exactly chunk_size frames *)
 Theorem C04_sinc_out_counts_R : forall env blen (s : @astate CR SR (@SincFixedOut CR)) wi wo m,
@@ -139,3 +194,9 @@ Print Assumptions C04_fast_in_steps_counts_R.
 Print Assumptions C04_sinc_in_steps_counts_R.
 Print Assumptions C04_fast_out_steps_counts_R.
 Print Assumptions C04_sinc_out_steps_counts_R.
+Print Assumptions C04_fft_out_next_le_max_R.
+Print Assumptions C04_fft_in_next_le_max_R.
+Print Assumptions C04_sinc_out_next_le_max_R.
+Print Assumptions C04_f32_quotients_exact.
+Print Assumptions C04_fft_out_counts_binary.
+Print Assumptions C04_fft_in_counts_binary.
